@@ -228,8 +228,8 @@ func c10Drivers() []concParams {
 		{Name: "overflow-handoff-4-writers", Cfg: "wide/bytewise", Clients: [][]string{{"put:a"}, {"put:b"}, {"putL:b"}, {"w:+a,+b", "get:a"}}, QB: 2, TB: 3, Expect: "noerr"},
 		// writers queue up behind a transaction that holds the write lock until all of them are
 		// parked: when it commits, one becomes leader and finds the others waiting to be merged
-		{Name: "queue-behind-transaction", Cfg: "roomy/bytewise", Clients: [][]string{{"trq:+z"}, {"put:a"}, {"put:b"}, {"w:+a,+b", "get:a"}}, QB: 2, TB: 3, Expect: "noerr"},
-		{Name: "queue-behind-transaction-overflow", Cfg: "wide/bytewise", Clients: [][]string{{"trq:+z"}, {"put:a"}, {"put:b"}, {"putL:b"}, {"w:+a,+b", "get:a"}}, QB: 2, TB: 3, Expect: "noerr"},
+		{Name: "queue-behind-transaction", Cfg: "roomy/bytewise", Clients: [][]string{{"trq:+z"}, {"put:a"}, {"put:b"}, {"w:+a,+b", "get:a"}}, QB: 2, TB: 3, WQ: 4, WT: 5, Expect: "noerr"},
+		{Name: "queue-behind-transaction-overflow", Cfg: "wide/bytewise", Clients: [][]string{{"trq:+z"}, {"put:a"}, {"put:b"}, {"putL:b"}, {"w:+a,+b", "get:a"}}, QB: 2, TB: 2, WQ: 4, WT: 5, Expect: "noerr"},
 		{Name: "4-writers", Cfg: "roomy/bytewise", Clients: [][]string{{"put:a"}, {"put:b"}, {"put:a"}, {"put:b"}}, QB: 2, TB: 3, Expect: "noerr"},
 	}
 }
